@@ -4,8 +4,9 @@ cheap part: a substring test that fails on a line fails on each of its prefixes,
 rendered line is `false` on all its prefixes; a non-empty prefix of a line starting with `#` contains `#`; a prefix of a
 newline-free line is newline-free.  Consequences: every prefix of a particle line shows no keyword at all; every non-empty
 prefix of a SMASH footer satisfies the `end`-line clause of `prefixHyp` (`hasHash ∧ ¬evSkip`) and is never taken for an
-`out` line by the scan.  NOT proved: the clauses of `prefixHyp` about the count read from a cut `out` line / JETSCAPE header
-(a prefix of a decimal numeral is not negative), about cut header lines, and the link `takeBytes` ↔ `List.take` on characters.
+`out` line by the scan.  The remaining clauses of `prefixHyp` / `jprefixHyp` (count read from a cut `out` line / event header, cut header lines,
+first `out` line) are in `Lemmas/ClassifyPrefixHyp.lean` / `ClassifyPrefixHypJet.lean`; `takeBytes` vs. bytes in
+`Lemmas/ClassifyAscii.lean`.
 Core Lean only.
 -/
 import SparkxVerif.Lemmas.ClassifyDamage
